@@ -137,7 +137,7 @@ def run_tempo(p, start, tau):
     c = make_callables(tau, log)
     o = _ops()
     sysm = oqupy.TimeDependentSystem(c.ham, gammas=[c.gam], lindblad_operators=[c.lop])
-    params = oqupy.TempoParameters(dt=p["dt"], epsrel=1e-5, dkmax=2, subdiv_limit=p["subdiv"],
+    params = oqupy.TempoParameters(dt=p["dt"], epsrel=1e-12, dkmax=2, subdiv_limit=p["subdiv"],
                                    liouvillian_epsrel=1e-12)
     tempo = oqupy.Tempo(system=sysm, bath=oq.cheap_bath(), parameters=params,
                         initial_state=o.up, start_time=start)
@@ -156,7 +156,7 @@ def run_mft(p, start, tau):
     o = _ops()
     tsys = oqupy.TimeDependentSystemWithField(c.ham_f, gammas=[c.gam], lindblad_operators=[c.lop])
     mfs = oqupy.MeanFieldSystem([tsys], c.eom)
-    params = oqupy.TempoParameters(dt=p["dt"], epsrel=1e-5, dkmax=2, subdiv_limit=p["subdiv"],
+    params = oqupy.TempoParameters(dt=p["dt"], epsrel=1e-12, dkmax=2, subdiv_limit=p["subdiv"],
                                    liouvillian_epsrel=1e-12)
     mft = oqupy.MeanFieldTempo(mean_field_system=mfs, bath_list=[oq.cheap_bath()],
                                initial_state_list=[o.up], initial_field=1.0 + 0.5j,
@@ -197,7 +197,7 @@ def run_pt_cd(p, start, tau):
     o = _ops()
     if p.get("real_pt", True):
         ptt = oqupy.PtTempo(bath=oq.cheap_bath(), start_time=start, end_time=end_of(start, p),
-                            parameters=oq.cheap_params(p["dt"]))
+                            parameters=oq.cheap_params(p["dt"], epsrel=1e-12))
         pt = ptt.get_process_tensor(progress_type="silent")
     else:
         pt = oq.identity_pt(p["n"], dt=p["dt"])
